@@ -75,6 +75,9 @@ theorem SRel.extLeft {σ σ1 σ' : State N} (h : SRel Q cx β σ σ') (hx : StEx
   front := hx.front (StExt.refl _) h.front
   pin := fun p hp => ⟨hx.closures _ _ (h.pin p hp).1, (h.pin p hp).2⟩
   pinR := h.pinR
+  pinT := h.pinT
+  pinC := h.pinC
+  inv := h.inv_step (Inj.ext.refl β) (Frame.ofGrow hx.cells (fun _ _ e => e) hx.tables (fun _ _ e => e) hx.closures (fun _ _ e => e))
 
 theorem SRel.extRight {σ σ' σ1' : State N} (h : SRel Q cx β σ σ') (hx : StExt σ' σ1') : SRel Q cx β σ σ1' where
   globals := by rw [hx.globals]; exact h.globals
@@ -89,6 +92,9 @@ theorem SRel.extRight {σ σ' σ1' : State N} (h : SRel Q cx β σ σ') (hx : St
   front := (StExt.refl _).front hx h.front
   pin := h.pin
   pinR := fun p hp => ⟨hx.closures _ _ (h.pinR p hp).1, (h.pinR p hp).2⟩
+  pinT := fun p hp => ⟨hx.tables _ _ (h.pinT p hp).1, (h.pinT p hp).2⟩
+  pinC := fun p hp => ⟨hx.cells _ _ (h.pinC p hp).1, (h.pinC p hp).2⟩
+  inv := h.inv_step (Inj.ext.refl β) (Frame.ofGrow (fun _ _ e => e) hx.cells (fun _ _ e => e) hx.tables (fun _ _ e => e) hx.closures)
 
 /-- evaluating `e` succeeds in every context and only allocates -/
 def AllocPureE (e : Expr) : Prop :=
